@@ -942,6 +942,20 @@ public:
         s += ",\"file\":" + jstr(fileOf(recLoc(RD)));
         s += ",\"line\":" + std::to_string(lineOf(recLoc(RD)));
         s += ",\"targs\":" + classTargs(RD);
+        if (auto* CS0 = dyn_cast<ClassTemplateSpecializationDecl>(RD))
+        {
+            // names of the primary template's parameters, in the order of targs
+            s += ",\"tparams\":[";
+            bool f0 = true;
+            for (auto* P : *CS0->getSpecializedTemplate()->getTemplateParameters())
+            {
+                if (!f0)
+                    s += ",";
+                f0 = false;
+                s += jstr(P->getNameAsString());
+            }
+            s += "]";
+        }
         if (isa<ClassTemplatePartialSpecializationDecl>(RD))
             s += ",\"partial\":true";
         if (auto* CS = dyn_cast<ClassTemplateSpecializationDecl>(RD))
